@@ -116,6 +116,7 @@ type Engine struct {
 	MaxSwitches    int
 	selectExplore  bool
 	permuteMaps    bool
+	mapAddrs       map[*omap]int
 	wgs            map[*value]*wgState
 	addrs          map[*value]int
 	stdout         []string
@@ -256,6 +257,7 @@ func (e *Engine) resetPath(prefix []Decision) {
 	e.MaxSwitches = 0
 	e.selectExplore, e.permuteMaps = false, false
 	e.wgs, e.addrs, e.stdout = nil, nil, nil
+	e.mapAddrs = nil
 	e.nondetUsed = nil
 	e.unwinding, e.panicWhere = false, ""
 	e.Outputs = nil
